@@ -134,6 +134,59 @@ theorem eval_file_roundtrip {α β : Type} (scratch : Str) (jobs : List (RJob α
       cases js <;> simp_all
   · exact hsplit
 
+/-! ## every failure of an array element is recorded in that element's own files -/
+
+/-- Whatever the point at which array element `i` fails — extracting the code package, importing the
+workflow script, looking up the task, or in the task itself — the only files it removes or writes are
+job `i`'s own error and output file; a failure is recorded in job `i`'s own error file (and no output
+is written), a success in its own output file (and no error is written). -/
+theorem element_records_in_own_files {α β : Type} (scratch : Str) (jobs : List (RJob α β)) (i : Nat)
+    (hi : i < jobs.length) (cache : Bool) (fail : Option FailAt) :
+    ∃ ops, oneshotOps (writeArrayFiles scratch jobs) i cache fail = .ok ops ∧
+      (∀ op ∈ ops, op.path = errorPath scratch jobs[i] ∨ op.path = resultPath scratch jobs[i]) ∧
+      (fail ≠ none → FileOp.writeError (errorPath scratch jobs[i]) ∈ ops ∧ ∀ p, FileOp.writeOutput p ∉ ops) ∧
+      (fail = none → FileOp.writeOutput (resultPath scratch jobs[i]) ∈ ops ∧ ∀ p, FileOp.writeError p ∉ ops) := by
+  have he : idx (writeArrayFiles scratch jobs).errorPaths i = .ok (errorPath scratch jobs[i]) := by
+    simp only [writeArrayFiles, idx_map _ _ _ hi]; rfl
+  have ho : idx (writeArrayFiles scratch jobs).outputPaths i = .ok (resultPath scratch jobs[i]) := by
+    simp only [writeArrayFiles, idx_map _ _ _ hi]; rfl
+  cases fail with
+  | none =>
+    refine ⟨_, by simp only [oneshotOps, he, ho]; rfl, ?_, by simp, ?_⟩
+    · cases cache <;> simp [FileOp.path]
+    · intro _; cases cache <;> simp
+  | some f =>
+    cases f with
+    | task =>
+      refine ⟨_, by simp only [oneshotOps, he, ho]; rfl, ?_, ?_, by simp⟩
+      · cases cache <;> simp [FileOp.path]
+      · intro _; cases cache <;> simp
+    | code =>
+      refine ⟨_, by simp only [oneshotOps, he]; rfl, ?_, by simp, by simp⟩
+      simp [FileOp.path]
+    | importScript =>
+      refine ⟨_, by simp only [oneshotOps, he]; rfl, ?_, by simp, by simp⟩
+      simp [FileOp.path]
+    | taskLookup =>
+      refine ⟨_, by simp only [oneshotOps, he]; rfl, ?_, by simp, by simp⟩
+      simp [FileOp.path]
+
+theorem ne_slash_cons_of_head {m : Str} (h : m.head? ≠ some '/') : ∀ t, m ≠ '/' :: t := by
+  intro t e; subst e; simp at h
+
+/-- … and those files are never one of the array's shared spec files (`input`, `output`, `error`,
+`eval_hashes` under `array_jobs/<id>/`), so no element can disturb another element's lookup. -/
+theorem own_files_are_not_spec_files (scratch h a n m : Str) (hh : IsHex h) (ha : IsHex a)
+    (hn : n = fOutput ∨ n = fError) (hm : m = fInput ∨ m = fOutput ∨ m = fError ∨ m = fHashes) :
+    jobFile scratch h n ≠ arrayFile scratch a m := by
+  apply jobFile_ne_arrayFile scratch h a n m hh.1 (hex_ne_slash hh) ha.1 (hex_ne_slash ha)
+  · rcases hn with e | e <;> subst e <;> exact ne_slash_cons_of_head (by decide)
+  · rcases hm with e | e | e | e <;> subst e <;> exact ne_slash_cons_of_head (by decide)
+
+/-- non-vacuity: element 1 of a two-job array failing at script import -/
+example := element_records_in_own_files "s".toList
+  [(⟨"0a".toList, 1, 1⟩ : RJob Nat Nat), ⟨"0b".toList, 2, 2⟩] 1 (by decide) true (some .importScript)
+
 /-! ## job reuniting -/
 
 /-- Every binding `eval hash ↦ Batch job id` that `gather_inflight_jobs` produces comes from a
